@@ -96,6 +96,62 @@ theorem stSchedule_new {st : Status} (l : List String) {p : String × Bool} (h :
         simp only [Bool.or_eq_false_iff] at h3
         exact h3.1
 
+/-! ## the set of known nodes -/
+
+/-- addresses of the known nodes (the keys of the node-breaker map), in map order -/
+def keys (ns : Nodes) : List String := ns.map (·.1)
+
+theorem hasKey_iff_mem_keys (ns : Nodes) (a : String) : hasKey ns a = true ↔ a ∈ keys ns := by
+  simp [hasKey, keys, List.any_eq_true]
+
+theorem keys_updNode (ns : Nodes) (a : String) (f : Breaker → Breaker) : keys (updNode ns a f) = keys ns := by
+  unfold keys updNode
+  rw [List.map_map]
+  apply List.map_congr_left
+  intro p _
+  simp only [Function.comp]
+  split <;> rfl
+
+theorem keys_check (r : Res) (now : Nat) (ord : Nodes) : keys (r.check now ord).1.nodes = keys r.nodes := by
+  unfold Res.check keys
+  simp only [List.map_map]
+  rfl
+
+theorem keys_completed (r : Res) (now : Nat) (a : String) (rt : Nat) (err : Bool) :
+    keys (r.completed now a rt err).nodes =
+      if a = "" ∨ a ∈ keys r.nodes then keys r.nodes else keys r.nodes ++ [a] := by
+  unfold Res.completed
+  by_cases ha : a = ""
+  · simp [ha]
+  · simp only [ha, if_false, false_or]
+    rw [keys_updNode]
+    by_cases hk : hasKey r.nodes a = true
+    · have := (hasKey_iff_mem_keys _ _).1 hk
+      simp [hk, this]
+    · have hm : a ∉ keys r.nodes := fun h => hk ((hasKey_iff_mem_keys _ _).2 h)
+      simp only [Bool.not_eq_true] at hk
+      rw [if_neg hm]
+      simp [hk, keys]
+
+theorem keys_retryOk (r : Res) (now : Nat) (a : String) (rt : Nat) : keys (r.retryOk now a rt).nodes = keys r.nodes := by
+  unfold Res.retryOk; simp only; exact keys_updNode _ _ _
+
+theorem keys_rebuild (r : Res) (rule : Rule) (now : Nat) (reuse : Bool) :
+    keys (r.rebuild rule now reuse).nodes = keys r.nodes := by
+  unfold Res.rebuild keys
+  simp only [List.map_map]
+  rfl
+
+theorem keys_recycle (r : Res) (a : String) :
+    keys (r.recycle a).nodes = if (stRecycle r.status a).2 then (keys r.nodes).filter (fun k => !(k == a)) else keys r.nodes := by
+  unfold Res.recycle
+  simp only
+  split
+  · unfold keys
+    rw [List.filter_map]
+    rfl
+  · rfl
+
 /-! ## the binary64 product -/
 
 theorem div_succ_le (q k : Nat) (hk : 0 < k) : (q + 1) / k ≤ q / k + 1 := by
